@@ -133,7 +133,9 @@ class _FunctionCall(object):
             # problem though.
 
             _type_info = ctx.descriptor.in_message._type_info
-            ctx.in_object = [None] * len(_type_info)
+            # an argument that is not passed is what its type says it is when
+            # absent, just like over the wire
+            ctx.in_object = [v.Attributes.default for v in _type_info.values()]
             for i in range(len(args)):
                 ctx.in_object[i] = args[i]
 
